@@ -24,6 +24,8 @@ def universe():
         "A2": RecordDescriptor("t/x", [("varint", "a")]),
         "B": RecordDescriptor("t/y", [("string", "q")]),
         "H": RecordDescriptor("t/h", [("record", "r"), ("record[]", "rl")]),
+        "Z": RecordDescriptor("t/z", []),                                  # a marker record: no fields at all
+        "U": RecordDescriptor("t_x", [("string", "a"), ("string", "b")]),  # A's fields; the name differs only in "/" vs "_"
     }
 
 
@@ -33,15 +35,17 @@ FIELDS = {
     "A2": ("t/x", (("varint", "a"),)),
     "B": ("t/y", (("string", "q"),)),
     "H": ("t/h", (("record", "r"), ("record[]", "rl"))),
+    "Z": ("t/z", ()),
+    "U": ("t_x", (("string", "a"), ("string", "b"))),
 }
 BYFT = {v: k for k, v in FIELDS.items()}
-IDENT = {"A": "iA", "Acol": "iA", "A2": "iA2", "B": "iB", "H": "iH"}
-NAMEKEY = {"t/x": "nA", "t/y": "nB", "t/h": "nH"}
+IDENT = {"A": "iA", "Acol": "iA", "A2": "iA2", "B": "iB", "H": "iH", "Z": "iZ", "U": "iU"}
+NAMEKEY = {"t/x": "nA", "t/y": "nB", "t/h": "nH", "t/z": "nZ", "t_x": "nU"}
 # identifier on the wire -> model key; computed with the independent hash of vf.refcodec
 WIREKEY = {}
 for _d, (_n, _f) in FIELDS.items():
     WIREKEY[(_n, rc.descriptor_hash(_n, _f))] = IDENT[_d]
-assert len(set(WIREKEY.values())) == 4, "A and Acol must really share an identifier"
+assert len(set(WIREKEY.values())) == 6, "A and Acol must really share an identifier"
 
 
 def leaf(d, bad=False):
@@ -52,12 +56,14 @@ def hold(ks):
     return {"kind": "rec", "d": "H", "kids": ks, "bad": False}
 
 
-LEAVES = [leaf(d) for d in ["A", "A2", "Acol", "B"]]
+CORE = [leaf(d) for d in ["A", "A2", "Acol", "B"]]
+LEAVES = CORE + [leaf("Z"), leaf("U")]
 BADLEAVES = [leaf(d, True) for d in ["A", "Acol", "B"]]
-HOLD = [hold(ks) for ks in [[]] + [[a] for a in LEAVES] + [[a, b] for a in LEAVES for b in LEAVES]]
+HOLD = [hold(ks) for ks in [[]] + [[a] for a in LEAVES] + [[a, b] for a in CORE for b in CORE]
+        + [[leaf("U"), leaf("A")], [leaf("A"), leaf("U")], [leaf("Z"), leaf("Z")], [leaf("Z"), leaf("B")]]]
 GRP = [{"kind": "grp", "d": "G", "kids": [a, b], "bad": False} for a in LEAVES for b in [leaf("B"), leaf("A2"), hold([leaf("A2")])]]
 # values whose write() raises part-way through packing (own text value with a lone surrogate)
-FAIL = BADLEAVES + [hold([x]) for x in BADLEAVES] + [hold([a, x]) for a in LEAVES for x in BADLEAVES] + [hold([x, a]) for a in LEAVES for x in BADLEAVES]
+FAIL = BADLEAVES + [hold([x]) for x in BADLEAVES] + [hold([a, x]) for a in CORE for x in BADLEAVES] + [hold([x, a]) for a in CORE for x in BADLEAVES]
 
 
 def is_fail(v):
@@ -87,8 +93,10 @@ def build(DESC, v, n=[0]):
         ks = [build(DESC, k) for k in v["kids"]]
         return DESC["H"](ks[0] if ks else None, ks[1:])
     val = "\ud800" if v.get("bad") else "x"  # a lone surrogate is accepted by the field but cannot be packed
-    if d == "A":
+    if d in ("A", "U"):
         return DESC[d]("1", val)
+    if d == "Z":
+        return DESC[d]()
     if d == "A2":
         return DESC[d](3)
     return DESC[d](val)
@@ -310,8 +318,8 @@ def gen_histories(ctx, recs, tier, exhaustive_len, n_random, rand_len, fail=()):
         for v in recs:
             if not self_colliding(v):
                 out.append([("w1", f), ("w1", v)])
-        for v in LEAVES:
-            for v2 in LEAVES:
+        for v in CORE:
+            for v2 in CORE:
                 out.append([("w1", v), ("w1", f), ("w1", v2)])
     recs = list(recs) + list(fail)
     for n in range(1, exhaustive_len + 1):
